@@ -90,6 +90,34 @@ def uptoBrokenCut (pre : Bytes) : (atStart : Bool) → List (Bytes × Option Nat
       | none => [(c, some k)]
       | some a' => (c, some k) :: uptoBrokenCut pre a' rest
 
+/-- The prefix that is already out for a line that has no byte yet: the accepted text ends at a line
+start (`atStart`), but the line state says the next byte needs no prefix (`st = false`). -/
+def pending (pre : Bytes) (atStart st : Bool) : Bytes := if atStart && !st then pre else []
+
+/-- The caller's bytes that were accepted along a history (all of a successful call's argument, the
+counted bytes of a failed one), up to its first cut inside a prefix. -/
+def accepted (pre : Bytes) : (atStart : Bool) → List (Bytes × Option Nat) → Bytes
+  | _, [] => []
+  | a, (c, none) :: rest => c ++ accepted pre (atStartAfter a c) rest
+  | a, (c, some k) :: rest =>
+    if c.isEmpty then accepted pre a rest
+    else
+      c.take (callerBytesIn pre a c k) ++
+        (match cutState pre a c k with
+         | none => []
+         | some a' => accepted pre a' rest)
+
+/-- The line state at the end of a history; `none`: some cut fell inside a prefix. -/
+def finalState (pre : Bytes) : (atStart : Bool) → List (Bytes × Option Nat) → Option Bool
+  | a, [] => some a
+  | a, (c, none) :: rest => finalState pre (atStartAfter a c) rest
+  | a, (c, some k) :: rest =>
+    if c.isEmpty then finalState pre a rest
+    else
+      match cutState pre a c k with
+      | none => none
+      | some a' => finalState pre a' rest
+
 /-- What a history shows to the caller and the underlying writer (the line states dropped; counts as
 Go `int`s). -/
 def observed (h : Bytes × List (Nat × Bool × Option Bool)) : Bytes × List (Int × Bool) :=
